@@ -48,7 +48,7 @@ func (s *stub) GetCallingScriptHash() util.Uint160 {
 	return s.w.resolve(s.c.Calling, stubEntry)
 }
 func (s *stub) GetCurrentScriptHash() util.Uint160 { return s.w.resolve(s.c.Cur, stubEntry) }
-func (s *stub) IsCalledByEntry() bool               { return s.c.Entry }
+func (s *stub) IsCalledByEntry() bool              { return s.c.Entry }
 func (s *stub) has(list []int, k *keys.PublicKey) bool {
 	for _, g := range list {
 		if s.w.groupKeys[g].Equal(k) {
